@@ -268,12 +268,390 @@ def run_generic(ctx):
                    "bounded: the inputs explored are a finite sample plus TLC-enumerated families"])
 
 
+# ----------------------------------------------------------------------------- relational
+
+def run_to_dict(ctx, variant, cases, events, tag, threads=1, all_on_all=False):
+    """Runs cases on a variant and returns {case id: output record} (and the summary record, if threaded)."""
+    binp = common.build(variant)
+    recs = {}
+    summary = None
+    cases = list(cases)
+    for ci in range(0, len(cases), 4000):
+        chunk = cases[ci:ci + 4000]
+        cin = os.path.join(ctx.dir, "rcases-%s-%d.ndjson" % (tag, ci))
+        cout = os.path.join(ctx.dir, "rout-%s-%d.ndjson" % (tag, ci))
+        common.write_cases(cin, chunk)
+        r = common.lexrun(binp, cin, cout, events=events, chars=True, timeout=900, threads=threads,
+                          all_on_all=all_on_all)
+        if r["timeout"] or r["rc"] != 0:
+            raise ToolError("lexrun (%s) failed on a relational batch: %s" % (variant, r["out"][-500:]))
+        for rec in common.read_ndjson(cout):
+            if rec["id"] == "__threads__":
+                summary = rec
+            else:
+                recs[rec["id"]] = rec
+        os.remove(cin)
+        os.remove(cout)
+        ctx.evals += len(chunk)
+    return recs, summary
+
+
+def write_pairs(ctx, tag, tuples):
+    """tuples: iterable of dicts {id, a: rec, b: rec[, ab: rec]} -> chunked trace files."""
+    paths = []
+    f = None
+    n = 0
+    for t in tuples:
+        if f is None or n % CHUNK == 0:
+            if f:
+                f.close()
+            path = os.path.join(ctx.dir, "pairs-%s-%d.ndjson" % (tag, n // CHUNK))
+            paths.append(path)
+            f = open(path, "w", encoding="utf-8")
+        f.write(json.dumps(t, ensure_ascii=False))
+        f.write("\n")
+        n += 1
+    if f:
+        f.close()
+    return paths
+
+
+def judge_pairs(ctx, tag, paths):
+    if not paths:
+        return
+    mon = common.monitor(ctx.prop, paths, ctx.dir, workers_each=2, parallel=8)
+    judge(ctx, tag, mon)
+    log("[%s] %s: %d tuples monitored in %.1fs, %d verdict lines, %d skipped" % (
+        ctx.prop, tag, mon["records"], mon["wall"], len(mon["verdicts"]), len(mon["skipped"])))
+    ctx.extra["skipped_" + tag] = len(mon["skipped"])
+    for pth in paths:
+        if not ctx.keep:
+            os.remove(pth)
+
+
+REL_ASSUME = ["position tables come from the harness and are re-derived by CertOK",
+              "pairs are joined by case id in the driver (pure data plumbing); every comparison is a TLA+ clause of spec/Rel.tla",
+              "bounded: finite sample of inputs"]
+
+
+def run_c17(ctx):
+    q = ctx.quick()
+    base_inputs(ctx, soup_n=4000 if q else 50000, lf_n=300 if q else 3000, mb_n=300 if q else 3000,
+                trunc_n=200 if q else 2000)
+    pick_samples(ctx)
+    srcs = [c for c in ctx.cases.values() if not c["src"].startswith("\ufeff")]
+    both = []
+    for c in srcs:
+        both.append({"id": c["id"] + ".a", "src": c["src"]})
+        both.append({"id": c["id"] + ".b", "src": "\ufeff" + c["src"]})
+    for variant in ("dbg", "rel"):
+        recs, _ = run_to_dict(ctx, variant, both, events=False, tag=variant)
+        paths = write_pairs(ctx, variant, ({"id": c["id"], "a": recs[c["id"] + ".a"], "b": recs[c["id"] + ".b"]}
+                                           for c in srcs))
+        judge_pairs(ctx, variant, paths)
+    return finish(ctx, "model_checking",
+                  "every input s not starting with U+FEFF (corpus, soup, derived families) is lexed as s and as "
+                  "U+FEFF+s by the real code; TLC evaluates the shift relation of spec/Rel.tla (C17_*) on each pair",
+                  REL_ASSUME)
+
+
+KW_CONTEXTS = {
+    "kw": ["{}", "{} x;", "a {} b", "{}=1;", "x={};"],
+    "mkw": ["%{}", "%{} ", "%{}(a)", "%{} a=1;", "a %{} b;", "%{}(a,1)", "\"%{}(a)\""],
+    "mnem": ["%eval(1 {} 2)", "%if a {} b %then;", "%eval({} 1)", "%sysevalf(1 {} 2)", "a {} b", "%eval(a{} 2)",
+             "%eval(1 {}2)"],
+    "suffix": ["'a'{}", "\"a\"{}", "\"&v\"{}", "'1f'{}", "'a'{};"],
+    "hexnum": ["0{}x", "1{}", "%eval(0{}x+1)", "'{}'x", "\"{}\"x", "1{}5", ".5{}3", "1.5{}+3"],
+    "datal": ["{};\n1 2\n;", ";{} ;\nab\n;", "x {};", "{}4;\na;b\n;;;;", "{}"],
+}
+
+
+def case_variants(word, rng, limit=64):
+    letters = [i for i, c in enumerate(word) if c.isascii() and c.isalpha()]
+    n = len(letters)
+    if n <= 6:
+        masks = range(1 << n)
+    else:
+        masks = {0, (1 << n) - 1}
+        while len(masks) < limit:
+            masks.add(rng.getrandbits(n))
+    out = []
+    for m in masks:
+        w = list(word.lower())
+        for bit, pos in enumerate(letters):
+            if (m >> bit) & 1:
+                w[pos] = w[pos].upper()
+        out.append("".join(w))
+    return out
+
+
+def keyword_lists():
+    """Keyword spellings from the TokenType names (naming rule of spec/Tokens.tla)."""
+    import re
+    text = open(os.path.join(common.SPEC, "Tokens.tla")).read()
+    kw = re.search(r"KwTypes == \{(.*?)\}", text, re.S).group(1)
+    kwm = re.search(r"KwmTypes == \{(.*?)\}", text, re.S).group(1)
+    special = {"KwAllVar": ["_ALL_"], "KwNullDataset": ["_NULL_"], "KwCorr": ["CORR", "CORRESPONDING"],
+               "KwExecute": ["EXEC", "EXECUTE"], "KwmInclude": ["INCLUDE", "INC"]}
+    kws, mkws = [], []
+    for t in re.findall(r'"(\w+)"', kw):
+        kws.extend(special.get(t, [t[2:].upper()]))
+    for t in re.findall(r'"(\w+)"', kwm):
+        mkws.extend(special.get(t, [t[3:].upper()]))
+    return kws, mkws
+
+
+def run_c16(ctx):
+    q = ctx.quick()
+    rng = ctx.rng
+    kws, mkws = keyword_lists()
+    pairs = []   # (base, variant)
+    lim = 12 if q else 64
+
+    def fam(name, words, ctxs, per_word_ctx):
+        for w in words:
+            for cx in (ctxs if per_word_ctx is None else rng.sample(ctxs, min(per_word_ctx, len(ctxs)))):
+                base = cx.replace("{}", w.lower())
+                for v in case_variants(w, rng, lim):
+                    var = cx.replace("{}", v)
+                    if var != base:
+                        pairs.append((name, base, var))
+
+    fam("kw", kws, KW_CONTEXTS["kw"], 2 if q else None)
+    fam("mkw", mkws, KW_CONTEXTS["mkw"], 2 if q else None)
+    fam("mnem", ["eq", "ne", "lt", "le", "gt", "ge", "in", "and", "or", "not"], KW_CONTEXTS["mnem"], None)
+    fam("suffix", ["b", "d", "dt", "n", "t", "x"], KW_CONTEXTS["suffix"], None)
+    fam("hexnum", ["a", "f", "e", "abc", "ef", "x"], KW_CONTEXTS["hexnum"], None)
+    fam("datal", ["datalines", "cards", "lines"], KW_CONTEXTS["datal"], None)
+    # random mangling of everything else
+    base_inputs(ctx, soup_n=2500 if q else 40000, trunc_n=100 if q else 1000)
+    for c in list(ctx.cases.values()):
+        v = gen.case_mangle(c["src"], rng)
+        if v != c["src"]:
+            pairs.append(("mangle", c["src"], v))
+    ctx.cases.clear()
+    ctx.families.clear()
+    both, ids = [], []
+    seen = set()
+    for name, base, var in pairs:
+        if (base, var) in seen or not gen.valid_utf8(base):
+            continue
+        seen.add((base, var))
+        cid = "%s-%d" % (name, len(ids))
+        ctx.cases[cid] = {"id": cid, "src": var, "base": base, "fam": name}
+        ctx.families[name] = ctx.families.get(name, 0) + 1
+        ids.append(cid)
+        both.append({"id": cid + ".a", "src": base})
+        both.append({"id": cid + ".b", "src": var})
+    pick_samples(ctx)
+    for variant in ("dbg", "rel"):
+        recs, _ = run_to_dict(ctx, variant, both, events=False, tag=variant)
+        paths = write_pairs(ctx, variant, ({"id": i, "a": recs[i + ".a"], "b": recs[i + ".b"]} for i in ids))
+        judge_pairs(ctx, variant, paths)
+    return finish(ctx, "model_checking",
+                  "pairs (s, case variant of s): all 2^n case variants of every keyword, macro keyword, mnemonic, literal "
+                  "suffix, hex digit / exponent marker and datalines keyword with up to 6 letters (sampled above that) in "
+                  "context templates, plus a random ASCII case mangling of corpus and soup inputs; TLC evaluates C16_* of "
+                  "spec/Rel.tla on each pair",
+                  REL_ASSUME)
+
+
+def run_c18(ctx):
+    q = ctx.quick()
+    base_inputs(ctx, soup_n=6000 if q else 80000, trunc_n=400 if q else 4000, lf_n=100 if q else 1000)
+    ctx.add_cases("sepfam", gen.sep_family(ctx.rng, 3000 if q else 40000))
+    pick_samples(ctx)
+    cases = list(ctx.cases.values())
+    for on, off in (("dbg", "nosep"),) + ((("rel", "relnosep"),) if not q else ()):
+        ra, _ = run_to_dict(ctx, on, cases, events=False, tag=on)
+        rb, _ = run_to_dict(ctx, off, cases, events=False, tag=off)
+        paths = write_pairs(ctx, on, ({"id": c["id"], "a": ra[c["id"]], "b": rb[c["id"]]} for c in cases))
+        nsep = sum(1 for c in cases if ra[c["id"]].get("ok") and any(t["ty"] == "MacroSep" for t in ra[c["id"]]["toks"]))
+        ctx.extra["cases_with_MacroSep_" + on] = nsep
+        if nsep == 0:
+            raise ToolError("vacuous: no input produced a MacroSep token")
+        judge_pairs(ctx, on, paths)
+    return finish(ctx, "model_checking",
+                  "every input is lexed by a build with the macro_sep feature and one without (same tree); TLC evaluates "
+                  "erase-equality, error index mapping and the MacroSep placement rule (C18_* of spec/Rel.tla)",
+                  REL_ASSUME)
+
+
+def run_c19(ctx):
+    q = ctx.quick()
+    base_inputs(ctx, soup_n=4000 if q else 60000, trunc_n=300 if q else 3000, mb_n=200 if q else 2000)
+    pick_samples(ctx)
+    cases = list(ctx.cases.values())
+    ref, _ = run_to_dict(ctx, "dbg", cases, events=True, tag="dbg")
+    others = [("rel", True), ("nightly", False), ("plain", False)]
+    for variant, ev in others:
+        recs, _ = run_to_dict(ctx, variant, cases, events=ev, tag=variant)
+        paths = write_pairs(ctx, "dbg-" + variant,
+                            ({"id": c["id"], "a": strip_variant(ref[c["id"]], ev), "b": strip_variant(recs[c["id"]], ev)}
+                             for c in cases))
+        judge_pairs(ctx, "dbg-" + variant, paths)
+        if variant == "rel":
+            rel = recs
+    # threads: every case on every thread, in a different order per thread, while the others are lexing
+    thr, summary = run_to_dict(ctx, "rel", cases, events=False, tag="threads", threads=16, all_on_all=True)
+    if summary is None:
+        raise ToolError("threaded run produced no summary")
+    ctx.extra["threads"] = {"threads": summary["threads"], "max_overlap": summary["max_overlap"],
+                            "calls": summary["calls"], "mismatching_cases": len(summary["mismatches"])}
+    if summary["max_overlap"] < 2:
+        raise ToolError("threaded run achieved no overlap")
+    for mm in summary["mismatches"][:50]:
+        ctx.violations.append(("C19_threads", mm["id"], "result differs between threads (thread %s)" % mm["thread"], "rel"))
+    paths = write_pairs(ctx, "rel-threads",
+                        ({"id": c["id"], "a": strip_variant(rel[c["id"]], False), "b": strip_variant(thr[c["id"]], False)}
+                         for c in cases))
+    judge_pairs(ctx, "rel-threads", paths)
+    # history: the same case again after all others have been lexed in the same process (reverse order)
+    rev, _ = run_to_dict(ctx, "rel", list(reversed(cases)), events=False, tag="rev")
+    paths = write_pairs(ctx, "rel-rev",
+                        ({"id": c["id"], "a": strip_variant(rel[c["id"]], False), "b": strip_variant(rev[c["id"]], False)}
+                         for c in cases))
+    judge_pairs(ctx, "rel-rev", paths)
+    statics = scan_shared_state()
+    ctx.extra["shared_state_scan"] = statics
+    return finish(ctx, "model_checking",
+                  "the same inputs are lexed by the debug-assertion build, the optimized build, the nightly-toolchain "
+                  "build (rustc_nightly path of add_token), a build without the hooks, by 16 threads concurrently (every "
+                  "case on every thread, different order per thread) and in reversed order in one process; TLC requires "
+                  "equal tokens, resolved view, errors, literal buffer (C19_same) and equal event streams for the hooked "
+                  "builds (C19_events). Thread schedules are sampled by the OS, not enumerated.",
+                  REL_ASSUME + ["schedules are sampled; the crate has no shared mutable state to enumerate over (see shared_state_scan)"])
+
+
+def strip_variant(rec, keep_events):
+    r = dict(rec)
+    if not keep_events:
+        r["events"] = []
+    for k in ("iters", "fin_iters", "max_stack", "lstarts", "at_eof"):
+        r.pop(k, None)
+    r["budget_exceeded"] = bool(rec.get("budget_exceeded", False))
+    return r
+
+
+def scan_shared_state():
+    """Greps the lexer crate for constructs that could make a result depend on anything but its input."""
+    import re
+    pats = r"static\s+mut|thread_local!|lazy_static!|OnceCell|OnceLock|AtomicU|AtomicI|AtomicBool|Mutex<|RwLock<|RefCell<|UnsafeCell"
+    hits = []
+    root = os.path.join(common.REPO, "crates/sas-lexer/src")
+    for d, _, fs in os.walk(root):
+        if os.sep + "tests" in d:
+            continue
+        for fn in fs:
+            if fn.endswith(".rs"):
+                for ln, line in enumerate(open(os.path.join(d, fn), encoding="utf-8"), 1):
+                    if re.search(pats, line) and not line.strip().startswith("//"):
+                        hits.append("%s:%d" % (os.path.relpath(os.path.join(d, fn), common.REPO), ln))
+    return hits
+
+
+def closed_prefix(rec):
+    if not rec.get("ok") or rec.get("budget_exceeded"):
+        return False
+    c = rec["at_eof"]
+    if not (len(c["modes"]) == 1 and c["modes"][0]["k"] == "Default" and c["nest"] == 0 and c["pend"] == [0]
+            and not c["ck"]["set"]):
+        return False
+    toks = rec["toks"]
+    if len(toks) < 2:
+        return False
+    t = toks[-2]
+    lastdef = [x["ty"] for x in toks[:-1] if x["ch"] == "DEFAULT"]
+    if lastdef and lastdef[-1] != "SEMI":
+        return False
+    if not (t["eb"] == rec["len"] and t["eb"] > t["b"] and t["ty"] in ("SEMI", "PredictedCommentStat", "MacroComment")
+            and rec["cs"][-1] == ";"):
+        return False
+    if t["ty"] == "MacroComment":
+        q = ""
+        body = rec["cs"][t["c"] + 2:]
+        for k, ch in enumerate(body):
+            if ch == ";" and not q:
+                return k == len(body) - 1
+            if ch in "'\"":
+                q = ch if not q else ("" if q == ch else q)
+        return False
+    return True
+
+
+def run_c15(ctx):
+    q = ctx.quick()
+    rng = ctx.rng
+    base_inputs(ctx, soup_n=5000 if q else 60000)
+    cands = []
+    seen = set()
+    for c in ctx.cases.values():
+        s = c["src"]
+        cuts = [i + 1 for i, ch in enumerate(s) if ch == ";"]
+        for cut in cuts[:8] + [len(s)]:
+            a = s[:cut]
+            if a and a not in seen:
+                seen.add(a)
+                cands.append(a)
+    ctx.cases.clear()
+    ctx.families.clear()
+    ctx.extra.pop("_seen", None)
+    acases = [{"id": "A%d" % i, "src": a} for i, a in enumerate(cands)]
+    recsA, _ = run_to_dict(ctx, "dbg", acases, events=False, tag="A")
+    closed = [c for c in acases if closed_prefix(recsA[c["id"]])]
+    ctx.extra["candidate_prefixes"] = len(acases)
+    ctx.extra["closed_prefixes"] = len(closed)
+    if len(closed) < 50:
+        raise ToolError("vacuous: only %d closed prefixes found" % len(closed))
+    frag = gen.OPEN_FRAGS + gen.MACRO_FRAGS
+    bpool = [f for f in frag] + [x + y for x in rng.sample(frag, 40) for y in rng.sample(frag, 10)] + \
+        gen.soup(rng, 1500 if q else 20000) + [s for _, s in gen.corpus() if len(s) < 300]
+    bpool = [b for b in gen.dedup(bpool) if gen.valid_utf8(b) and not b.startswith("\ufeff")]
+    per_a = 6 if q else 30
+    maxpairs = 9000 if q else 150000
+    tuples = []
+    rng.shuffle(closed)
+    for a in closed:
+        for b in rng.sample(bpool, per_a):
+            tuples.append((a, b))
+        if len(tuples) >= maxpairs:
+            break
+    bcases, abcases = {}, []
+    for k, (a, b) in enumerate(tuples):
+        if b not in bcases:
+            bcases[b] = {"id": "B%d" % len(bcases), "src": b}
+        cid = "P%d" % k
+        ctx.cases[cid] = {"id": cid, "src": a["src"] + b, "A": a["src"], "B": b, "fam": "pair"}
+        abcases.append({"id": cid, "src": a["src"] + b})
+    ctx.families["pair"] = len(tuples)
+    pick_samples(ctx)
+    for variant in ("dbg", "rel"):
+        ra, _ = run_to_dict(ctx, variant, [a for a in closed], events=False, tag="a" + variant)
+        rb, _ = run_to_dict(ctx, variant, list(bcases.values()), events=False, tag="b" + variant)
+        rab, _ = run_to_dict(ctx, variant, abcases, events=False, tag="ab" + variant)
+        paths = write_pairs(ctx, variant, ({"id": "P%d" % k, "a": ra[a["id"]], "b": rb[bcases[b]["id"]], "ab": rab["P%d" % k]}
+                                           for k, (a, b) in enumerate(tuples)))
+        judge_pairs(ctx, variant, paths)
+    return finish(ctx, "model_checking",
+                  "closed prefixes A are found among all ';'-cuts of corpus and soup inputs by the recorded end-of-input "
+                  "configuration (hook snapshot: mode stack [Default], nesting 0, pending [false], no checkpoint) and a last "
+                  "token that is a consumed ';' or statement comment; each is paired with continuations B (fragments, "
+                  "fragment pairs, soup, corpus; not starting with U+FEFF); TLC evaluates C15_* of spec/Rel.tla on "
+                  "(lex(A+B), lex(A), lex(B)) and re-checks closedness itself (ClosedPrefix)",
+                  REL_ASSUME)
+
+
+RUNNERS = {"C15": run_c15, "C16": run_c16, "C17": run_c17, "C18": run_c18, "C19": run_c19}
+
+
 def run(prop, tier, seed, replay=None, keep=False):
     ctx = Ctx(prop, tier, seed, keep=keep)
     if replay:
         return run_replay(ctx, replay)
     if prop in GENERIC:
         return run_generic(ctx)
+    if prop in RUNNERS:
+        return RUNNERS[prop](ctx)
     raise ToolError("no check registered for %s" % prop)
 
 
